@@ -206,11 +206,24 @@ NUM_EXPRS = [
     "mean([1, 2])", "median([1, 2, 3])", "length([])", "bit_and(6, 3)",
     "int(TRUE)", "decimal(FALSE)", "parse_json('1.5e3')", "parse_json('12')",
     "parse_json('1e2')", "0.1 + 0.2", "1 - 1.0", "-0.0", "0.0 * -1",
+    # decimals made from ints that no double represents exactly
+    "decimal(9007199254740993)", "9007199254740993 * 1.0",
+    "9007199254740993 + 0.0", "9007199254740993 - 0.5",
+    "round(9007199254740993)", "floor(9007199254740993)",
+    "ceiling(9007199254740993)", "abs(decimal(-9007199254740993))",
+    "max(9007199254740993, 0.5)", "min(-9007199254740993, 0.5)",
+    "sum([9007199254740993, 0.5])", "decimal(pow(10, 25) + 1)",
+    "mean([9007199254740993])", "decimal(18446744073709551617)",
+    "if_null(NULL, decimal(9007199254740993))", "decimal('9007199254740993')",
+    "9007199254740993 / 1.0", "9007199254740993 % 2.5",
+    "[decimal(9007199254740993)][0]", "decimal(2147483648 * 4194304 + 1)",
 ]
 
 
 def check_numeric_expr(expr):
-    src = f"def v = {expr}; [type(v), string(v), string([v])]"
+    src = (f"def v = {expr}; def w = eval(string([v]))[0]; "
+           f"[type(v), string(v), string([v]), w == v, type(w) == type(v), "
+           f"string(w) == string(v)]")
     out = cklrun.run(src, budget=20)
     if out[0] == "error":
         return None      # the expression is not defined for these operands
@@ -218,9 +231,15 @@ def check_numeric_expr(expr):
         return Finding(f"C08|typed-render|{out[0]}", f"{src} -> "
                        f"{cklrun.short(out)}")
     try:
-        t, s, inlist = cklrun.to_model(out[1])
+        t, s, inlist, same, same_type, same_text = cklrun.to_model(out[1])
     except cklrun.BadValue as e:
         return Finding("C08|typed-render|badvalue", f"{src}: {e}")
+    if t in ("int", "decimal") and not (same is True and same_type is True
+                                        and same_text is True):
+        return Finding("C08|typed-render|roundtrip",
+                       f"{expr} renders {s!r}; evaluating that text gives a "
+                       f"value with ==: {same}, same type: {same_type}, same "
+                       f"text: {same_text}")
     if t == "int" and not (INT_RE.match(s) and inlist == f"[{s}]"):
         return Finding("C08|int-not-an-integer-numeral",
                        f"{expr} has type int but renders {s!r} / {inlist!r}")
